@@ -108,6 +108,29 @@ def shape(n):
         return "[" + ",".join(shape(c) for c in n) + "]"
     return str(n)
 
+# Functions that the translator covers *in pieces* in every preprocessor configuration (every straight-line
+# segment and every loop body is a regenerated Lean definition with its own theorems): only what the pieces
+# do not contain is tied by hash - the signature, the loop headers (init / condition / step) and the order of
+# segments and loops.  A rewrite inside a piece re-proves or fails its lemma; a changed loop bound changes the hash.
+SKELETON = re.compile(r"^_skinny(128|64)_parallel_(en|de)crypt_vec(128|256)$")
+def skeleton(f):
+    sig = [shape(c) for c in f.get("inner", []) if c.get("kind") == "ParmVarDecl"]
+    body = body_of(f)
+    items = []
+    for st in (body.get("inner", []) if body else []):
+        k = st.get("kind")
+        if k in ("ForStmt", "WhileStmt", "DoStmt"):
+            inner = st.get("inner", [])
+            items.append("LOOP:%s(%s)" % (k, ",".join(shape(c) for c in inner[:-1])))     # everything but the body
+        elif k == "ReturnStmt":
+            items.append("RETURN(%s)" % shape(st))
+        else:
+            if not items or items[-1] != "SEG": items.append("SEG")
+    return "SKELETON{%s;%s;type=%s}" % (",".join(sig), ",".join(items), f.get("type", {}).get("qualType"))
+
+def fshape(name, f):
+    return skeleton(f) if SKELETON.match(name) else shape(f)
+
 def text_shape(path):
     """comment- and whitespace-insensitive hash of a source file (Arduino port, example tools)"""
     t = open(path, errors="replace").read()
@@ -128,7 +151,7 @@ def collect(repo):
             b = body_of(f)
             if b is None: continue
             if name.startswith("skinny") or name.startswith("mantis") or name.startswith("_skinny") or name.startswith("_mantis"):
-                hsh = hashlib.sha256(shape(f).encode()).hexdigest()[:16]
+                hsh = hashlib.sha256(fshape(name, f).encode()).hexdigest()[:16]
                 key = name + "@" + fn if "-vec" in fn else name      # the vector files carry their own static copies
                 cur = facts["shapes"].get(key, "")
                 if hsh not in cur.split("+"): facts["shapes"][key] = "+".join(sorted([x for x in cur.split("+") if x] + [hsh]))
@@ -170,7 +193,7 @@ def collect(repo):
             for name, f in tu2.funcs.items():
                 if body_of(f) is None: continue
                 if not (name.startswith("skinny") or name.startswith("mantis") or name.startswith("_skinny") or name.startswith("_mantis")): continue
-                hsh = hashlib.sha256(shape(f).encode()).hexdigest()[:16]
+                hsh = hashlib.sha256(fshape(name, f).encode()).hexdigest()[:16]
                 key = (name + "@" + fn if "-vec" in fn else name) + suffix
                 cur = facts["shapes"].get(key, "")
                 if hsh not in cur.split("+"): facts["shapes"][key] = "+".join(sorted([x for x in cur.split("+") if x] + [hsh]))
